@@ -5,6 +5,7 @@ import SfVerif.Lemmas.GenFnsState
 import SfVerif.Lemmas.Language2
 import SfVerif.Lemmas.Frame3
 import SfVerif.Gen.ApiStatus
+import SfVerif.Lemmas.Sched
 /-! C03 — the writer enforces the document grammar; a rejected call changes nothing. -/
 namespace SfVerif.Props.C03
 open SfVerif SfVerif.Gen
@@ -133,6 +134,20 @@ theorem C03_every_history_complete (w : Nat) (ops : List Op) :
   obtain ⟨fs, hfs⟩ := framesOf_some hI.stackOk
   unfold Writer.finalize Writer.abs
   cases hst : wr.st <;> simp [WState.frame, hfs]
+
+/-- **C03 under every interleaving of any number of threads**: whatever any threads have done in
+    whatever order, the next write call on thread `t` is answered by the grammar at the position
+    thread `t`'s own document is in, and a rejected call changes nothing; finalisation succeeds exactly
+    when that thread's root value has been closed. (Schedule theorem: `Lemmas/Sched`.) -/
+theorem C03_every_schedule (w : Nat) (sched : Sys.Sched) (t : Nat) (op : WOp) :
+    let wr := ((Sys.runSched w {} sched).1.get t).ctx.writer
+    ((wr.step op).2.1 = (wr.abs.step op.tok).2 ∧ (wr.step op).1.abs = (wr.abs.step op.tok).1 ∧
+      ((wr.step op).2.1 ≠ WriteResult_Ok → (wr.step op).1 = wr)) ∧
+    ((wr.finalize).1 = WriteResult_Ok ↔ wr.abs = .complete) := by
+  have h := (SfVerif.Props.C14.noninterference_from w t sched {}).2
+  have h0 : ({} : Sys).get t = {} := by simp [Sys.get]
+  rw [h, h0]
+  exact ⟨C03_every_history w _ op, C03_every_history_complete w _⟩
 
 /-- the status a call is answered with reaches the caller of the api crate under the same name:
     the api crate's status-to-error match (regenerated from api/src/write.rs) is the identity on names,
